@@ -4,7 +4,7 @@ import json, os
 HERE = os.path.dirname(os.path.abspath(__file__))
 SYMX = "SYMX: symbolic execution of the real Python functions by z3-real proxy objects, path enumeration, z3 decides each path's assertion"
 CHECKS = {
- 'C01': dict(tech="symbolic execution of real match() over abstract geometry + in-solver brute-force optimum (z3 LRA/NRA)", ref="5/C01",
+ 'C01': dict(tech="symbolic execution of real match() over abstract geometry + in-solver brute-force optimum; inductive step: one real _match_states from an arbitrary well-formed column against the documented recurrence (z3 LRA/NRA)", ref="5/C01",
              text="Bounded symbolic model checking: every feasible path of the real match() over an abstract map (all distances symbolic) on the listed small graphs and trace lengths is closed by an unsat query against a brute-force optimum over all walks; holds for all distance tables, thresholds within the bounds, not beyond.",
              note="Exact real arithmetic for symbolic values (no rounding); AbsMap geometric contract; halfnorm formula shim; graphs <=3-4 nodes, T<=3; incomplete enumerations are flagged per instance in the evidence."),
  'C13': dict(tech="symbolic execution of real dist_euclidean kernels + z3 nlsat refutation of nearest-point/minimality claims", ref="5/C13",
@@ -12,7 +12,7 @@ CHECKS = {
              note="Reals instead of doubles; sqrt/isclose/min/max shims; segment-to-segment minimality in general position outside the claim."),
 }
 CHECKS.update({
- 'C02': dict(tech="symbolic execution of real update()/match()/widen/extend over abstract geometry; in-solver comparison with an independent re-derivation of the documented score model", ref="5/C02",
+ 'C02': dict(tech="one-step symbolic execution of the real BaseMatching.next / logprob_trans / update from arbitrary predecessors; symbolic execution of real match()/widen/extend over abstract geometry; in-solver comparison with an independent re-derivation of the documented score model", ref="5/C02",
              text="Bounded symbolic model checking: the fields reported along the best path (log-probability, length, observation distance, accumulated distances) equal an independently re-derived model value on every path of the real code within the bounds; update() copies every slot for both matching classes.",
              note="Reals for symbolic values; AbsMap contract; tolerance 1e-8; graphs <=4 nodes, T<=3, histories of <=3 operations; incomplete enumerations flagged per instance."),
  'C07': dict(tech="symbolic execution of real LatticeColumn.prune against an independent specification + relational symbolic execution of match() with/without width and widening sequences (z3 LRA/NRA)", ref="5/C07",
@@ -31,21 +31,21 @@ CHECKS.update({
              note="Reals except the FP lemma; non-emitting FP lemma only at reduced width (stated); sequences longer than 3 outside."),
 })
 CHECKS.update({
- 'C06': dict(tech="relational symbolic execution of real match() with non-emitting states off/on in one path over abstract geometry (z3 LRA/NRA)", ref="5/C06",
+ 'C06': dict(tech="relational symbolic execution of real match() with non-emitting states off/on in one path over abstract geometry; inductive step: one real _match_non_emitting_states between two arbitrary emitting columns (z3 LRA/NRA)", ref="5/C06",
              text="Bounded symbolic model checking: on every joint path of the two runs the matched prefix with non-emitting states is not shorter and, for complete matches, the best probability not lower.",
              note="Abstract geometry is a superset of real geometries (candidates only reported after concrete replay); first-order families; graphs <=4 nodes, T<=3."),
  'C08': dict(tech="relational symbolic execution: incremental schedule vs one-shot match of the real matcher in one path over abstract geometry (z3)", ref="5/C08",
              text="Bounded symbolic model checking: every one- and two-cut extension schedule gives the same index and probability (path up to exact ties) as a fresh one-shot match, cut-offs symbolic.",
              note="Reals; AbsMap contract; T<=4 on 2-edge graphs else 3."),
- 'C10': dict(tech="relational symbolic execution under engine-chosen iteration/listing orders (values_all stub, edge/node/neighbour listing) in one path (z3)", ref="5/C10",
+ 'C10': dict(tech="relational symbolic execution under engine-chosen iteration/listing orders (values_all stub, edge/node/neighbour listing) in one path; relational inductive step on _match_non_emitting_states with the columns filed in two orders (z3)", ref="5/C10",
              text="Bounded symbolic model checking: for every permutation of set iteration order and map listing order within the bounds the index and probability coincide (paths only differ on exact ties).",
              note="LatticeColumn.values_all replaced by an order-parametrised stub that over-approximates hash order; AbsMap contract."),
- 'C19': dict(tech="relational symbolic execution of real match() at ERROR and DEBUG level in one path over abstract geometry (z3)", ref="5/C19",
+ 'C19': dict(tech="relational symbolic execution of real match() at ERROR and DEBUG level in one path over abstract geometry; relational inductive step on _match_non_emitting_states at both levels (z3)", ref="5/C19",
              text="Bounded symbolic model checking: same index, probability and (up to exact ties) path at both log levels on every joint path, with symbolic cut-offs so that stopped candidates exist.",
              note="Sym.__format__ placeholder for log formatting; ties between equally probable alternatives are not distinguished (C10's caveat)."),
 })
 CHECKS.update({
- 'C11': dict(tech="symbolic execution of real InMemMap.nodes_closeto/edges_closeto with the real planar kernels; full-scan membership/distance/projection/order oracle in the solver (z3 nlsat)", ref="5/C11",
+ 'C11': dict(tech="symbolic execution of real InMemMap.nodes_closeto/edges_closeto with the real planar kernels; full-scan membership/distance/projection/order oracle in the solver (z3 nlsat); SqliteMap through the parsing SQL shim, incl. lat-lon nodes_closeto over stand-ins for the geodesic primitives", ref="5/C11",
              text="Bounded symbolic checking of the in-memory spatial queries in the planar metric: nodes with all coordinates symbolic, edges on a library of concrete layouts (unit, long, diagonal, zero-length, tiny, ~1e7 metres) with symbolic query point and radius; one known finding (start-node box pre-filter) is listed in known_findings.json.",
              note="Reals; rtree-indexed map, lat-lon metric and SqliteMap are outside this check's bounds (stated in evidence); absolute 1e-8 tolerances give a radius-proportional band."),
  'C20': dict(tech="symbolic execution of real interpolate_path (planar: real kernels; lat-lon: loop structure over symbolic stand-ins of the geodesic primitives), z3", ref="5/C20",
@@ -76,7 +76,7 @@ CHECKS.update({
              note="2-4 integer-labelled nodes; matcher part on a concrete unit-square layout with symbolic observations; float32 band 2^-21 relative."),
 })
 CHECKS.update({
- 'C14': dict(tech="symbolic execution of the real dist_latlon functions in an exact angle algebra ((sin,cos) pairs over z3 reals), identities against 3-D unit vectors decided by z3 nlsat; replay on doubles against an independent vector computation", ref="5/C14",
+ 'C14': dict(tech="symbolic execution of the real dist_latlon functions in an exact angle algebra ((sin,cos) pairs over z3 reals), identities against 3-D unit vectors decided by z3 nlsat; segment-to-segment structure over stand-ins with the real planar kernel; replay on doubles against an independent vector computation", ref="5/C14",
              text="Bounded/partial symbolic checking: haversine distance = great-circle angle (all points); destination inverts distance and bearing; box_around_point contains the disc in latitude (longitude bounds and parts of point-to-segment are attempted and reported inconclusive when nlsat returns unknown); point-to-segment distance/point consistency and end-point swap on the decided paths.",
              note="Exact reals; ti as a ratio of angles only through 0/1 clamping; the centimetre agreement of the planar-frame segment-to-segment routine is outside (transcendental error bound); inconclusive paths are counted, never reported as passes."),
 })
